@@ -2,6 +2,7 @@ package diff
 
 import (
 	"fmt"
+	"sort"
 	"strings"
 
 	"github.com/go-openapi/spec"
@@ -43,9 +44,15 @@ func CompareProperties(location DifferenceLocation, schema1 *spec.Schema, schema
 	schema1Props := propertiesFor(schema1, getRefFn1)
 	schema2Props := propertiesFor(schema2, getRefFn2)
 
-	// find deleted and changed properties
-	for eachProp1Name, eachProp1 := range schema1Props {
-		eachProp1 := eachProp1
+	// find deleted and changed properties (in a stable order: comparing a property marks the
+	// definitions it refers to as compared, which later properties then skip)
+	prop1Names := make([]string, 0, len(schema1Props))
+	for eachProp1Name := range schema1Props {
+		prop1Names = append(prop1Names, eachProp1Name)
+	}
+	sort.Strings(prop1Names)
+	for _, eachProp1Name := range prop1Names {
+		eachProp1 := schema1Props[eachProp1Name]
 		childLoc := addChildDiffNode(location, eachProp1Name, eachProp1.Schema)
 
 		if eachProp2, ok := schema2Props[eachProp1Name]; ok {
